@@ -321,3 +321,83 @@ contract(F, 'Pwhile.__embed__', props=('C13',), params={'self': 'self', 'inval':
          policies={'sc3/base/stream.py::embed': embed_pol, FN + '::value': value_pol('bool')},
          hooks={'getattr': h_getattr}, class_modules={'Pwhile': F},
          opts={'generator_trace': True}, native=False)
+
+
+# ---- Pclump: groups of n consecutive values ------------------------------------------------------------------
+# every outer pass starts a NEW list (before anything is drawn), draws the group size once, fills the list with
+# exactly the values drawn in this pass and yields that list; when a source ends in the middle of a pass the
+# list of THAT pass is yielded as the remainder iff it is not empty - never a list of an earlier pass again.
+def pc_new_list(eng, items, st):
+    if items == []:
+        n = next(eng.counter)
+        st.trace.append(('new-buffer', n))
+        return V('ref', cls='Buf', oid='buf!%d' % n, extra={'truth': z3.Bool('buf!%d.nonempty' % n), 'buf': n})
+    return None
+
+
+def pc_getattr(eng, obj, name, st, node):
+    if obj.k == 'ref' and obj.cls == 'Buf' and name == 'append':
+        def app(eng, args, kwargs, st, node, _o=obj):
+            st.trace.append(('buffer-append', _o, args[0]))
+            return [(st, NONE)]
+        return [(st, V('func', py=('spec', app)))]
+    return h_getattr(eng, obj, name, st, node)
+
+
+def buf_kind(eng, name):
+    return V('ref', cls='Buf', oid='buf-of-an-earlier-pass', extra={'truth': z3.Bool('old-buffer.nonempty'), 'buf': 'old'})
+
+
+def pc_inner(c, L):
+    ev = since(c.trace, 1)
+    if not ev:
+        return z3.BoolVal(True)
+    ev = [e for e in ev if e[0] in ('draw', 'buffer-append', 'yield', 'new-buffer')]
+    if [e[0] for e in ev] != ['draw', 'buffer-append']:
+        return z3.BoolVal(False)
+    cur = c.st.env['lst']
+    ok = (ev[1][1] is cur and ev[1][2] is ev[0][2]                         # the value just drawn goes into the current list
+          and ev[0][1].extra['of'].oid == 'self.pattern')
+    return z3.BoolVal(bool(ok))
+
+
+def pc_outer(c, L):
+    ev = since(c.trace, 0)
+    if not ev:
+        return z3.BoolVal(True)
+    ev = [e for e in ev if e[0] in ('new-buffer', 'draw', 'yield', 'loop-head')]
+    kinds = [e[0] for e in ev]
+    # new list FIRST, then the size, (inner loop), then the list of this pass is yielded
+    if kinds[:2] != ['new-buffer', 'draw'] or kinds[-1] != 'yield' or kinds.count('new-buffer') != 1 \
+            or kinds.count('yield') != 1:
+        return z3.BoolVal(False)
+    y = ev[-1][1]
+    ok = (ev[1][1].extra['of'].oid == 'self.n' and y.k == 'ref' and y.cls == 'Buf' and y.extra['buf'] == ev[0][1])
+    return z3.BoolVal(bool(ok))
+
+
+def pc_post(c):
+    t = c.trace
+    heads = [i for i, e in enumerate(t) if e[0] == 'loop-head' and e[1] == 0]
+    if not heads:
+        return z3.BoolVal(False)
+    tail = t[heads[-1]:]
+    ys = [e for e in tail if e[0] == 'yield']
+    made = [e for e in tail if e[0] == 'new-buffer']
+    if not ys:
+        if not made:
+            return z3.BoolVal(False)                                          # a pass always starts with a new list
+        return z3.Not(z3.Bool('buf!%d.nonempty' % made[-1][1]))              # nothing left over
+    y = ys[-1][1]
+    ok = len(ys) == 1 and bool(made) and y.k == 'ref' and y.cls == 'Buf' and y.extra['buf'] == made[-1][1]
+    return z3.And(z3.BoolVal(bool(ok)), z3.Bool('buf!%d.nonempty' % made[-1][1]) if made else z3.BoolVal(False))
+
+
+contract(F, 'Pclump.__embed__', props=('C13',), params={'self': 'self', 'inval': 'obj'},
+         ensures=[('remainder-of-the-last-pass-yielded-iff-non-empty,no-earlier-list-again', pc_post)],
+         fields={'Pclump': {'pattern': 'obj', 'n': 'obj'}, 'Buf': {}},
+         loops={0: Loop(inv=pc_outer, kinds={'inval': 'obj', 'lst': buf_kind, 'n': 'int', 'value': 'any', '_': 'int'}),
+                1: Loop(inv=pc_inner, kinds={'value': 'any', '_': 'int'})},
+         policies={'sc3/base/stream.py::stream': make_stream(stream_kind)},
+         hooks={'getattr': pc_getattr, 'new_list': pc_new_list}, class_modules={'Pclump': F, 'Buf': F},
+         opts={'generator_trace': True}, native=False)
